@@ -8,6 +8,7 @@ import RactorModel.Lemmas.FactoryNoPanic
 import RactorModel.Lemmas.FactoryNoDrop
 import RactorModel.Lemmas.FactoryPort
 import RactorModel.Lemmas.FactoryReason
+import RactorModel.Lemmas.FactoryHeartbeat
 
 /-!
 # C13 — Factory: every job meets exactly one fate, never runs twice
@@ -609,6 +610,33 @@ example : (((init portDemoCase).runSteps portDemoSteps).env.log.filterMap fun | 
     = [(5, false), (6, false), (7, true)] := by decide +kernel
 example : ((init portDemoCase).runSteps portDemoSteps).env.log.countP (isAnswerEv 7) = 1 := by decide +kernel
 
+/-! ## Round 4, wave 2: the dead-man's switch (worker heartbeat) -/
+
+/-- (dead-man's switch) For EVERY sequence of pings, job starts, completions and earlier checks of one worker slot, at
+whatever instants: if `IdentifyStuckWorkers` at instant `t` declares the worker stuck for `detection_timeout`, the worker
+is inside a job at that moment, that one job was already running when the unanswered ping went out, and it has been
+running for longer than `detection_timeout`. Killing the worker then is a `kill` of an actor that holds exactly that job:
+by `die_loses_only_held` / `one_job_lost_per_death_partial` that job and nothing else gets the fate `lost`. -/
+theorem dead_mans_switch_only_long_jobs (es : List Heartbeat.Ev) (t timeout : Nat)
+    (h : (({} : Heartbeat.Slot).run es).stuckAt t timeout = true) :
+    ∃ t0 u, ((({} : Heartbeat.Slot).run es).advance t).running = some t0 ∧
+      ((({} : Heartbeat.Slot).run es).advance t).hb.sentAt = some u ∧ t0 ≤ u ∧
+      ((({} : Heartbeat.Slot).run es).advance t).now - t0 > timeout :=
+  Heartbeat.stuck_means_one_long_job es t timeout h
+
+/-- (dead-man's switch) an idle worker is never declared stuck, however long ago it was pinged -/
+theorem dead_mans_switch_spares_idle (es : List Heartbeat.Ev) (t timeout : Nat)
+    (hr : ((({} : Heartbeat.Slot).run es).advance t).running = none) :
+    (({} : Heartbeat.Slot).run es).stuckAt t timeout = false :=
+  Heartbeat.idle_never_stuck es t timeout hr
+
+/-- non-vacuity: a job started at 0, pinged at 10, still running at 200 with timeout 100: stuck; the same ping to an idle
+worker, or a job that returned at 50: not stuck -/
+example : (({} : Heartbeat.Slot).run [.start 0, .ping 10]).stuckAt 200 100 = true := by decide
+example : (({} : Heartbeat.Slot).run [.ping 10]).stuckAt 200 100 = false := by decide
+example : (({} : Heartbeat.Slot).run [.start 0, .ping 10, .finish 50, .start 60]).stuckAt 200 100 = false := by decide
+
+
 end C13
 
 #print axioms C13.reject_log
@@ -649,3 +677,5 @@ end C13
 #print axioms C13.no_shutdown_discard_without_drain
 #print axioms C13.acceptance_port_closed_only_at_exit
 #print axioms C13.acceptance_port_replied_exactly_once
+#print axioms C13.dead_mans_switch_only_long_jobs
+#print axioms C13.dead_mans_switch_spares_idle
